@@ -49,3 +49,73 @@ def replay_process(inp):
         if rt != 101 and rt not in ALLOWED.get(t, set()):
             bad.append({"request_type": t, "why": "response packet type %d is not valid for this request" % rt})
     return {"violates": bool(bad), "detail": bad[:3]}
+
+
+def replay_check_file(inp):
+    """real _process(CMD_EXTENDED 'check-file') on a valid handle whose stat()/read() behave in every way the C30
+    handle contract allows: answer, short answer, empty answer, error code or exception at the k-th call"""
+    from paramiko.sftp_handle import SFTPHandle
+    from paramiko.sftp_attr import SFTPAttributes
+    data = bytes((i * 7 + 3) % 251 for i in range(150000))
+
+    class H(SFTPHandle):
+        def __init__(self, stat_mode, fail_at, fail_mode, chunk):
+            SFTPHandle.__init__(self)
+            self.stat_mode, self.fail_at, self.fail_mode, self.chunk, self.reads = stat_mode, fail_at, fail_mode, chunk, 0
+
+        def stat(self):
+            if self.stat_mode == "code":
+                return S.SFTP_PERMISSION_DENIED
+            if self.stat_mode == "raise":
+                raise OSError("stat failed")
+            a = SFTPAttributes()
+            a.st_size = len(data)
+            return a
+
+        def read(self, offset, length):
+            self.reads += 1
+            if self.fail_at and self.reads == self.fail_at:
+                if self.fail_mode == "code":
+                    return S.SFTP_FAILURE
+                if self.fail_mode == "raise":
+                    raise OSError("read failed")
+                return b""
+            return data[offset:offset + min(length, self.chunk)]
+
+    bad = []
+    ranges = [(0, 0, 0), (0, 0, 65536), (10, 100000, 512), (0, 1000, 100), (140000, 50000, 4096)]
+    s, l, b = ival(inp, "Message.get_int64.ret", 0), ival(inp, "Message.get_int64.ret!1", 0), ival(inp, "Message.get_int.ret", 512)
+    if 0 <= s < 10 ** 6 and 0 <= l < 10 ** 6 and 0 <= b < 10 ** 6:
+        ranges.insert(0, (s, l, b))
+    for algs in (["sha1"], ["md5", "sha1"], ["nope"]):
+        for (start, length, bs) in ranges:
+            for stat_mode in ("ok", "code", "raise"):
+                for fail_at, fail_mode in ((0, None), (1, "code"), (2, "code"), (3, "code"), (1, "raise"), (2, "raise"), (2, "empty")):
+                    for handle in (b"h", b"missing"):
+                        srv = object.__new__(SFTPServer)
+                        srv.file_table, srv.folder_table, srv.next_handle = {b"h": H(stat_mode, fail_at, fail_mode, 40000)}, {}, 1
+                        srv.server = SFTPServerInterface(None)
+                        srv.logger = None
+                        srv._log = lambda *a, **k: None
+                        sent = []
+                        srv._send_packet = lambda tt, m: sent.append((tt, m.asbytes() if hasattr(m, "asbytes") else m))
+                        m = Message()
+                        m.add_string("check-file"); m.add_string(handle); m.add_list(algs)
+                        m.add_int64(start); m.add_int64(length); m.add_int(bs)
+                        case = {"algs": algs, "start": start, "length": length, "block_size": bs, "stat": stat_mode,
+                                "read_fails_at": fail_at, "read_failure": fail_mode, "handle": handle.decode()}
+                        try:
+                            srv._process(S.CMD_EXTENDED, 77, Message(m.asbytes()))
+                        except Exception as e:
+                            if sent:
+                                bad.append(dict(case, why="raised %r after sending %d responses" % (e, len(sent))))
+                            continue
+                        if len(sent) != 1:
+                            bad.append(dict(case, why="%d responses (types %r)" % (len(sent), [x[0] for x in sent])))
+                            continue
+                        rt, payload = sent[0]
+                        if struct.unpack(">I", payload[:4])[0] != 77:
+                            bad.append(dict(case, why="response carries id %d" % struct.unpack(">I", payload[:4])[0]))
+                        if rt not in (101, 201):
+                            bad.append(dict(case, why="response packet type %d" % rt))
+    return {"violates": bool(bad), "detail": bad[:3]}
